@@ -268,9 +268,13 @@ Inductive main_pc := MWait | MFinal | MDone.
    every other connection just Close.  There is no other way a connection is shut down: in
    particular no step closes only one half of it. *)
 Inductive kind := KTcp | KOther.
-Inductive cop := CSetLinger | CClose.
+(* the shutdown calls carry their ARGUMENTS: SetLinger's is the linger time in whole seconds (the
+   value that decides what Close does with data still queued in the socket: C05/ModelTcp.v) *)
+Inductive cop := CSetLinger (secs : nat) | CClose.
+(* proxies.go: const resetIfNotClosedAfter = 10 // seconds;  cTCP.SetLinger(resetIfNotClosedAfter) *)
+Definition linger_secs : nat := 10.
 Definition close_ops (k : kind) : list cop :=
-  match k with KTcp => [CSetLinger; CClose] | KOther => [CClose] end.      (* wg.Wait(); removeSession + deferred covertConn.Close(); returned *)
+  match k with KTcp => [CSetLinger linger_secs; CClose] | KOther => [CClose] end.
 Inductive tid := TUp | TDown | TUpCl | TDownCl | TMain.
 
 Record cfg := {
